@@ -1,43 +1,54 @@
 """C05 — clock-domain crossings never corrupt, drop, duplicate or reorder data."""
-from explore import Job, run_jobs, generic_search, generic_replay
+import os, json, glob
+from explore import Job, run_jobs, generic_search, generic_replay, Disagreement, impl_step, _masked_equal
 import c05lib
-from c05lib import AFifoInst
+from c05lib import AFifoInst, BusSyncInst, BusSync1Inst, PulseSyncInst, AxiLiteCdcInst
 from litex.soc.interconnect import stream
 
 L1 = [("data", 1)]
 L8 = [("data", 8)]
 L32 = [("data", 32)]
-FMT = AFifoInst.FMT
+FMT = "per instance, see c05lib: AFifoInst.FMT / BusSyncInst.FMT / PulseSyncInst.FMT / AxiLiteCdcInst.FMT"
 TA, TB = 0, 7       # two fifo words that differ in every field (data, first, last); 0 is the memory reset value
+CORPUS = os.path.join(os.path.dirname(os.path.dirname(os.path.dirname(os.path.abspath(__file__)))), "corpus", "C05")
 
 
 def _cdc(layout, depth, buffered=False, cd_from="usb", cd_to="eth"):
     return stream.ClockDomainCrossing(layout, cd_from=cd_from, cd_to=cd_to, depth=depth, buffered=buffered)
 
 
+def _uart_fifo(depth, sink_cd, source_cd):
+    from litex.soc.cores import uart
+    return uart._get_uart_fifo(depth, sink_cd=sink_cd, source_cd=source_cd)
+
+
 def jobs(tier):
     quick = tier == "quick"
     J = []
-    A = lambda mk, **kw: J.append(Job("A", mk, max_states=60000 if quick else 2000000, **kw))
-    B = lambda mk, **kw: J.append(Job("B", mk, cycles=6000 if quick else 40000, runs=1 if quick else 3, **kw))
+    A = lambda mk, **kw: J.append(Job("A", mk, max_states=60000 if quick else 3000000, **kw))
+
+    def B(mk, cycles=6000, **kw):
+        J.append(Job("B", mk, cycles=cycles if quick else cycles * 6, runs=1 if quick else 3, **kw))
+    alt = dict(tokens=(TA, TB), alternate=True)
     # -- A: complete reachable product, all interleavings {w, r, both} x handshakes x resolutions ------------
-    A(lambda: AFifoInst("AsyncFIFO(4)/1b/alt", stream.AsyncFIFO(L1, 4), 2, tokens=(TA, TB), alternate=True))
-    A(lambda: AFifoInst("AsyncFIFO(4,buffered)/1b/alt", stream.AsyncFIFO(L1, 4, buffered=True), 2, buffered=True,
-                        tokens=(TA, TB), alternate=True))
-    A(lambda: AFifoInst("ClockDomainCrossing(4,usb->eth)/1b/alt", _cdc(L1, 4), 2, cd_w="usb", cd_r="eth",
-                        tokens=(TA, TB), alternate=True))
+    A(lambda: AFifoInst("AsyncFIFO(4)/1b/alt", stream.AsyncFIFO(L1, 4), 2, **alt))
+    A(lambda: AFifoInst("AsyncFIFO(4,buffered)/1b/alt", stream.AsyncFIFO(L1, 4, buffered=True), 2, buffered=True, **alt))
+    A(lambda: AFifoInst("ClockDomainCrossing(4,usb->eth)/1b/alt", _cdc(L1, 4), 2, cd_w="usb", cd_r="eth", **alt))
     A(lambda: AFifoInst("ClockDomainCrossing(4,buffered,usb->eth)/1b/alt", _cdc(L1, 4, True), 2, buffered=True,
-                        cd_w="usb", cd_r="eth", tokens=(TA, TB), alternate=True))
+                        cd_w="usb", cd_r="eth", **alt))
+    A(lambda: BusSyncInst("BusSynchronizer(2,t=8)/i=3", 2, 8, values=(3,)))
+    A(lambda: BusSyncInst("BusSynchronizer(2,t=16)/i=3", 2, 16, values=(3,)))
+    A(lambda: BusSync1Inst("BusSynchronizer(1)"))
+    A(lambda: PulseSyncInst("PulseSynchronizer"))
     if not quick:
-        A(lambda: AFifoInst("ClockDomainCrossing(8,buffered,usb->eth)/1b/alt/eager", _cdc(L1, 8, True), 3,
-                            buffered=True, cd_w="usb", cd_r="eth", tokens=(TA, TB), alternate=True, eager=True))
-        A(lambda: AFifoInst("ClockDomainCrossing(8,usb->eth)/1b/alt", _cdc(L1, 8), 3, cd_w="usb", cd_r="eth",
-                            tokens=(TA, TB), alternate=True))
         A(lambda: AFifoInst("AsyncFIFO(4)/1b/free", stream.AsyncFIFO(L1, 4), 2, tokens=(TA, TB)))
         A(lambda: AFifoInst("AsyncFIFO(4,buffered)/1b/free", stream.AsyncFIFO(L1, 4, buffered=True), 2,
                             buffered=True, tokens=(TA, TB)))
-        A(lambda: AFifoInst("ClockDomainCrossing(8,buffered,usb->eth)/1b/alt", _cdc(L1, 8, True), 3, buffered=True,
-                            cd_w="usb", cd_r="eth", tokens=(TA, TB), alternate=True))
+        A(lambda: AFifoInst("ClockDomainCrossing(8,usb->eth)/1b/alt", _cdc(L1, 8), 3, cd_w="usb", cd_r="eth", **alt))
+        A(lambda: AFifoInst("ClockDomainCrossing(8,buffered,usb->eth)/1b/alt/eager", _cdc(L1, 8, True), 3,
+                            buffered=True, cd_w="usb", cd_r="eth", eager=True, **alt))
+        A(lambda: BusSyncInst("BusSynchronizer(2,t=8)/i=0,3", 2, 8, values=(0, 3)))
+        A(lambda: BusSyncInst("BusSynchronizer(2,t=16)/i=0,3", 2, 16, values=(0, 3)))
     # -- B: realistic sizes, clock ratios 1:1 .. 1:7 both ways with drifting phase ---------------------------
     B(lambda: AFifoInst("AsyncFIFO(8)/8b", stream.AsyncFIFO(L8, 8), 3))
     B(lambda: AFifoInst("AsyncFIFO(16,buffered)/32b", stream.AsyncFIFO(L32, 16, buffered=True), 4, buffered=True))
@@ -45,13 +56,65 @@ def jobs(tier):
                         cd_w="sys", cd_r="phy"))
     B(lambda: AFifoInst("ClockDomainCrossing(32,buffered)/8b", _cdc(L8, 32, True), 5, buffered=True,
                         cd_w="usb", cd_r="eth"))
+    B(lambda: AFifoInst("uart tx fifo (16, sys->phy)", _uart_fifo(16, "sys", "phy"), 4, cd_w="sys", cd_r="phy"))
+    B(lambda: AFifoInst("uart rx fifo (16, phy->sys)", _uart_fifo(16, "phy", "sys"), 4, cd_w="phy", cd_r="sys"))
+    B(lambda: AxiLiteCdcInst("AXILiteClockDomainCrossing(sys->phy)"), cycles=1200)
+    # BusSynchronizer: clocks with drift ratio <= 3 (the property's quantifier), coherence monitor armed
+    B(lambda: BusSyncInst("BusSynchronizer(8,t=128)/R<=3", 8, 128, ratio_max=3), cycles=20000)
+    B(lambda: BusSyncInst("BusSynchronizer(5,t=19)/R<=3", 5, 19, ratio_max=3), cycles=20000)
+    B(lambda: BusSyncInst("BusSynchronizer(32,t=11)/R<=1", 32, 11, ratio_max=1), cycles=20000)
+    B(lambda: PulseSyncInst("PulseSynchronizer/spaced pulses"), cycles=20000)
     return J
 
 
-def correspond(ctx):
-    ctx.jobs = jobs(ctx.tier)
-    dis, bad = run_jobs(ctx, ctx.jobs)
+def _corpus_instance(spec):
+    if spec["kind"] == "bussync":
+        return BusSyncInst(spec["name"], spec["width"], spec["timeout"])
+    raise ValueError(spec)
+
+
+def run_corpus(ctx):
+    """Stored witnesses are replayed first: model and code must agree on every instant, and the recorded
+    verdict of the property oracle must be unchanged (a *negative witness* of an excluded region is expected to
+    make the oracle fire; that is not a violation, it documents why the theorem carries its hypothesis)."""
+    dis = []
+    for path in sorted(glob.glob(os.path.join(CORPUS, "*.json"))):
+        w = json.load(open(path))
+        inst = _corpus_instance(w["instance"])
+        trace = [tuple(l) for l in w["trace"]]
+        mon = inst.monitor()
+        fired = None
+        impl_outs = []
+        for t, letter in enumerate(trace):
+            outs = impl_step(inst, letter)
+            impl_outs.append(outs)
+            m = mon.observe(letter, outs)
+            if m and fired is None:
+                fired = (t, m)
+        ctx.lean.open(inst.lean_open)
+        model_outs = ctx.lean.run([list(l) for l in trace])
+        ctx.lean.close_session()
+        for t in range(len(trace)):
+            if not _masked_equal(inst, impl_outs[t], model_outs[t]):
+                dis.append(Disagreement(inst, trace[:t + 1], t, impl_outs[t], model_outs[t]))
+                break
+        final = impl_step(inst, trace[-1])  # outputs after the last instant (the letter repeats harmlessly)
+        ok = (fired is not None) == bool(w.get("oracle_fires"))
+        ctx.cov.add_cases("corpus:" + os.path.basename(path), len(trace), len(trace), exhaustive=False)
+        if not ok:
+            if w.get("oracle_fires"):
+                ctx.cov.notes.append("corpus witness %s no longer makes the oracle fire" % os.path.basename(path))
+            else:
+                dis.append(Disagreement(inst, trace[:fired[0] + 1], fired[0], impl_outs[fired[0]], None,
+                                        kind="monitor:" + fired[1]))
     return dis
+
+
+def correspond(ctx):
+    dis = run_corpus(ctx)
+    ctx.jobs = jobs(ctx.tier)
+    d2, bad = run_jobs(ctx, ctx.jobs)
+    return dis + d2
 
 
 def search(ctx, disagreements, proof_info):
